@@ -474,3 +474,125 @@ PROPS.update({
                     "with an empty name; the broker's PUBLISHes carry a non-empty topic and a non-zero packet identifier "
                     "for QoS > 0 (hypotheses wf_cfg', wf_event' of the theorem)"]),
 })
+
+PROPS.update({
+    "C23": {
+        "theorems": ["C23_gateway_checker_sound", "C23_gateway_all_histories", "C23_client_checker_sound", "C23_client_all_histories"],
+        "drivers": ["drv_gw.test", "drv_client.test"],
+        "units": [Unit("drv_gw", unit_gw), Unit("drv_client", unit_client)],
+        "mismatch_kinds": [r"SN", r"undecodable", r"PANIC", r"MISSING-"],
+        "rule": GW_RULE + "; " + CL_RULE,
+        "assumptions": GW_ASSUME + CL_ASSUME + ["configuration sanity and broker conformance as in C24 (wf_cfg', wf_event'); client "
+                                                "configuration with a non-empty client ID and credentials that fit a datagram (wf_cl_cfg)"],
+    },
+    "C17": {
+        "theorems": ["C17_checker_sound", "C17_all_histories"],
+        "drivers": ["drv_client.test"],
+        "units": [Unit("drv_client", unit_client)],
+        "mismatch_kinds": [r"SN:(Publish|Subscribe|Pubcomp|Pubrel|Register|Unsubscribe)", r"RET", r"TIME", r"PANIC", r"MISSING-"],
+        "rule": CL_RULE,
+        "assumptions": CL_ASSUME,
+    },
+})
+
+
+def unit_gw_multi(ctx):
+    """C15: groups of three sessions created from ONE shared gateway configuration run concurrently
+    in one bubble; every session's trace is compared with the single-session model."""
+    d = core.shared_dir("gwmulti", ctx.tier, ctx.seed)
+    res, hist, trace = os.path.join(d, "gwm.res"), os.path.join(d, "gwm.hist"), os.path.join(d, "gwm.impl")
+    if not cached(res):
+        groups = budget(ctx, 700, 14000)
+        rc, out, _ = core.run("%s gen-gw-multi %d %d 3 %s" % (core.DRIVER, ctx.seed + 15, groups, hist))
+        if rc != 0:
+            return {"lines": [], "error": "gen-gw-multi failed: " + out[-2000:]}
+        err = run_sharded_multi(ctx.bin("drv_gw.test"), hist, trace, 3)
+        if err:
+            return {"lines": [], "error": err}
+        rc, out, _ = core.run("%s cmp-gw %s %s > %s.tmp && mv %s.tmp %s" % (core.DRIVER, hist, trace, res, res, res))
+        if rc != 0:
+            return {"lines": [], "error": "cmp-gw failed: " + out[-2000:]}
+    lines = open(res).read().splitlines()
+    # any failure of a single-session property observed in a concurrent session is a C15 failure too
+    lines = [l for l in lines if not l.startswith("FAIL ")] + \
+            ["FAIL C15 in-concurrent-session " + l[5:] for l in lines if l.startswith("FAIL ") and
+             not any(l.startswith("FAIL " + p + " ") for p in ("C02", "C04", "C08", "C11", "C12", "C34"))]
+    return {"lines": lines, "inputs": hist}
+
+
+def run_sharded_multi(binary, hist, trace, k, shards=14):
+    """Like run_sharded for groups of k consecutive histories (drv_gw -multi k).  A crash inside a
+    group is recorded for every history of the group (the driver announces a group with a G line)."""
+    from concurrent.futures import ThreadPoolExecutor
+    blocks, cur = [], []
+    with open(hist) as f:
+        for line in f:
+            cur.append(line)
+            if line.strip() == "END":
+                blocks.append(cur)
+                cur = []
+    groups = [blocks[i:i + k] for i in range(0, len(blocks) - len(blocks) % k, k)]
+    parts = [[] for _ in range(shards)]
+    for g, grp in enumerate(groups):
+        parts[g % shards].append(grp)
+
+    def run_part(j):
+        hp, tp = "%s.s%d" % (hist, j), "%s.s%d" % (trace, j)
+        with open(hp, "w") as f:
+            for grp in parts[j]:
+                for b in grp:
+                    f.writelines(b)
+        start = 0
+        open(tp, "w").close()
+        for _ in range(100):
+            rc, out, _ = core.run("%s -hist %s -out %s -start %d -multi %d" % (binary, hp, tp, start, k), timeout=3000)
+            if rc == 0:
+                return None
+            lastg = None
+            with open(tp) as f:
+                for line in f:
+                    if line.startswith("G "):
+                        lastg = [int(x) for x in line.split()[1:3]]
+            if lastg is None or lastg[0] < start:
+                return "drv_gw -multi failed before running any group: " + out[-2000:]
+            msg = "unknown"
+            for ln in out.splitlines():
+                if ln.startswith("panic:") or "fatal error" in ln:
+                    msg = ln.strip().replace(" ", "_")
+                    break
+            with open(tp, "a") as f:
+                for idx in range(lastg[0], lastg[1] + 1):
+                    f.write("H %d\nX PANIC process-crashed:%s\nEND\n" % (idx, msg))
+            start = lastg[1] + 1
+        return "drv_gw -multi crashed too many times"
+
+    with ThreadPoolExecutor(max_workers=shards) as ex:
+        errs = list(ex.map(run_part, range(shards)))
+    with open(trace, "w") as out:
+        for j in range(shards):
+            hp, tp = "%s.s%d" % (hist, j), "%s.s%d" % (trace, j)
+            if os.path.exists(tp):
+                with open(tp) as f:
+                    out.write(f.read())
+                os.remove(tp)
+            if os.path.exists(hp):
+                os.remove(hp)
+    for e in errs:
+        if e:
+            return e
+    return None
+
+
+PROPS["C15"] = {
+    "theorems": ["C15_non_interference"],
+    "drivers": ["drv_gw.test"],
+    "units": [Unit("drv_gw_multi", unit_gw_multi)],
+    "mismatch_kinds": [r"."],
+    "rule": "groups of three model-guided session histories (profiles as in the single-session runs) sharing ONE configuration "
+            "and predefined-topics map are run as three concurrent sessions created from one shared gateway handler "
+            "configuration (gateway.NewVerifShared, as ListenAndServe does per peer address) in one synctest bubble on a common "
+            "clock, events interleaved by virtual time; each session's trace must equal the single-session model run of its own "
+            "events, byte for byte and ms for ms; non-trivial = the implementation produced an output for the event",
+    "assumptions": GW_ASSUME + ["sessions are created through the add-only verif hook that mirrors ListenAndServe's per-connection "
+                                "closure; the UDP demultiplexing by peer address (pion/udp) is not exercised"],
+}
